@@ -1,64 +1,131 @@
 (* C13 — Every tag report and reader event reaches EdgeX exactly once.
    Only property statements; each closed by [exact] of a lemma of Driver/PublishProofs.v.
-   Runs are [run init evs] over ALL event lists: any interleaving of messages received by any
-   number of devices, publisher completions in any order, commands and keep-alives. *)
+   Runs are [run dec is_conn (init_up up0) evs] over ALL decoders [dec], ALL initial
+   operating-state flags [up0] and ALL event lists: any interleaving of messages received
+   completely or cut off by the end of a connection, by any number of devices, at any times,
+   publishers progressing in any order, SDK operating-state calls returning late, with or without
+   error, devices being marked DOWN, commands and keep-alives. *)
 From Coq Require Import NArith List Bool Arith Permutation.
 From LLRP Require Import Driver.Publish Driver.PublishProofs.
 Import ListNotations.
 
 (* at every moment, what was published together with what is still in flight is, as a multiset,
-   exactly the decodable ROAccessReports / ReaderEventNotifications received so far, each tagged
-   with the receiving device and the resource of its type and carrying its decoded content;
-   so once all started publishers have run, published is a permutation of the received ones:
-   none lost, none duplicated, none attributed to another device or resource *)
-Theorem C13_published_multiset_eq_received : forall evs,
-  let s := run init evs in
-  Permutation (published s ++ pending s) (expected evs) /\
-  (pending s = [] -> Permutation (published s) (expected evs)).
+   exactly the decodable ROAccessReports / ReaderEventNotifications received completely so far,
+   each tagged with the receiving device and the resource of its type and carrying the decoding
+   of its bytes; so once all started publishers have run, published is a permutation of the
+   received ones: none lost, none duplicated, none attributed to another device or resource.
+   Neither the devices' operating-state flags nor their changes appear in [expected]. *)
+Theorem C13_published_multiset_eq_received : forall dec is_conn up0 evs,
+  let s := run dec is_conn (init_up up0) evs in
+  Permutation (published s ++ inflight s) (expected dec evs) /\
+  (inflight s = [] -> Permutation (published s) (expected dec evs)).
 Proof. exact published_multiset_eq_received. Qed.
 Print Assumptions C13_published_multiset_eq_received.
 
-(* ... and the started publishers can always all run (no publisher waits for another one) *)
-Theorem C13_all_publishers_can_run : forall evs,
-  let s := run init (evs ++ drain (run init evs)) in
-  pending s = [] /\ Permutation (published s) (expected evs).
+(* ... and the started publishers can always all run (no publisher waits for another one; the
+   only thing a connection event's publisher waits for is its own SDK call returning, with or
+   without error) *)
+Theorem C13_all_publishers_can_run : forall dec is_conn up0 ok evs,
+  let s := run dec is_conn (init_up up0) (evs ++ drain ok (run dec is_conn (init_up up0) evs)) in
+  inflight s = [] /\ Permutation (published s) (expected dec evs).
 Proof. exact all_publishers_can_run. Qed.
 Print Assumptions C13_all_publishers_can_run.
 
 (* a message that fails to decode is dropped, and only it: the run continues exactly as if it
    had not arrived *)
-Theorem C13_bad_decode_dropped_only : forall evs1 evs2 d t cs,
-  run init (evs1 ++ Recv d t None cs :: evs2) = run init (evs1 ++ evs2) /\
-  expected (evs1 ++ Recv d t None cs :: evs2) = expected (evs1 ++ evs2).
+Theorem C13_bad_decode_dropped_only : forall dec is_conn s evs1 evs2 d t bs now,
+  dec t bs = None ->
+  run dec is_conn s (evs1 ++ Recv d t bs now :: evs2) = run dec is_conn s (evs1 ++ evs2) /\
+  expected dec (evs1 ++ Recv d t bs now :: evs2) = expected dec (evs1 ++ evs2).
 Proof. exact bad_decode_dropped_only. Qed.
 Print Assumptions C13_bad_decode_dropped_only.
 
-(* device and resource of every published reading are those of a message that was received *)
-Theorem C13_published_attribution : forall evs d r c,
-  In (d, r, c) (published (run init evs)) ->
-  exists t cs, In (Recv d t (Some c) cs) evs /\ resource_of t = Some r.
+(* a message of which only a part arrived before its connection ended publishes nothing —
+   whatever the part that arrived would decode to — and the run continues as if it had not begun *)
+Theorem C13_incomplete_message_publishes_nothing : forall dec is_conn s evs1 evs2 d t got missing now,
+  run dec is_conn s (evs1 ++ RecvCut d t got missing now :: evs2) = run dec is_conn s (evs1 ++ evs2) /\
+  expected dec (evs1 ++ RecvCut d t got missing now :: evs2) = expected dec (evs1 ++ evs2).
+Proof. exact incomplete_message_publishes_nothing. Qed.
+Print Assumptions C13_incomplete_message_publishes_nothing.
+
+(* device and resource of every published reading are those of a message that was received
+   completely, and its content is the decoding of that message's bytes: a function of the bytes
+   the reader sent alone *)
+Theorem C13_published_attribution : forall dec is_conn up0 evs d r c,
+  In (d, r, c) (published (run dec is_conn (init_up up0) evs)) ->
+  exists t bs now, In (Recv d t bs now) evs /\ resource_of t = Some r /\ dec t bs = Some c.
 Proof. exact published_attribution. Qed.
 Print Assumptions C13_published_attribution.
 
-(* commands, keep-alives and other message types leave the readings alone *)
-Theorem C13_others_publish_nothing : forall s e,
+(* ... in particular not of the time at which the driver received them *)
+Theorem C13_receive_time_irrelevant : forall dec is_conn f evs s,
+  run dec is_conn s (map (retime f) evs) = run dec is_conn s evs /\
+  expected dec (map (retime f) evs) = expected dec evs.
+Proof. exact run_retimed. Qed.
+Print Assumptions C13_receive_time_irrelevant.
+
+(* commands, keep-alives, cut-off messages and other message types leave the state alone;
+   marking a device DOWN changes its flag and no reading *)
+Theorem C13_others_publish_nothing : forall dec is_conn s e,
   match e with
-  | Command _ | KeepAliveAck _ => step s e = s
-  | Recv _ t _ _ => resource_of t = None -> step s e = s
+  | Command _ | KeepAliveAck _ | RecvCut _ _ _ _ _ => step dec is_conn s e = s
+  | MarkDown _ _ => readings (step dec is_conn s e) = readings s
+  | Recv _ t _ _ => resource_of t = None -> step dec is_conn s e = s
   | _ => True
   end.
 Proof. exact others_publish_nothing. Qed.
 Print Assumptions C13_others_publish_nothing.
 
-(* non-vacuity: two devices, a report and an event each, an undecodable report, a keep-alive and
-   a command in between; publishers complete out of order *)
+(* publication does not depend on the device's operating-state flag: a report or an ordinary
+   reader event received in ANY state (flag up or down, SDK calls outstanding) has only its
+   channel send left and can complete at once *)
+Theorem C13_report_not_gated_by_operating_state : forall dec is_conn s d t bs now r c,
+  resource_of t = Some r -> dec t bs = Some c -> conn_reading is_conn (d, r, c) = false ->
+  let s1 := step dec is_conn s (Recv d t bs now) in
+  pending s1 = pending s ++ [(d, r, c)] /\
+  published (step dec is_conn s1 (PublisherRun (length (pending s)))) = published s ++ [(d, r, c)].
+Proof. exact report_not_gated. Qed.
+Print Assumptions C13_report_not_gated_by_operating_state.
+
+(* ... and over whole runs: with NO SDK call ever returning, whatever the flags say, letting the
+   pending publishers run publishes everything received except connection events; what still
+   waits are successful connection events only (their publishers tell EdgeX first) *)
+Theorem C13_reports_published_without_sdk : forall dec is_conn up0 evs,
+  let s0 := run dec is_conn (init_up up0) evs in
+  let s := run dec is_conn s0 (repeat (PublisherRun 0) (length (pending s0))) in
+  pending s = [] /\
+  Permutation (published s ++ starting s ++ parked s) (expected dec evs) /\
+  Forall (fun x => conn_reading is_conn x = true) (starting s ++ parked s).
+Proof. exact reports_published_without_sdk. Qed.
+Print Assumptions C13_reports_published_without_sdk.
+
+(* non-vacuity. A toy decoder: a payload decodes iff it is non-empty and does not start with 0,
+   to its first byte; contents >= 100 are successful connection events. Device 1 is registered
+   DOWN, device 2 UP. Device 1 connects (100), its publisher parks in the SDK call; a report (11)
+   received meanwhile is published at once; a report of device 2 is cut off after a prefix that
+   would decode ([20] of 3 announced bytes): nothing; an undecodable report; a keep-alive, a
+   command, device 2 marked DOWN and its later report (21) published all the same; the SDK call
+   fails; the connection event is published in the end. *)
+Definition ex_dec (t : mtype) (bs : list N) : option content :=
+  match bs with
+  | b :: _ => if N.eqb b 0 then None else Some b
+  | [] => None
+  end.
+Definition ex_conn (c : content) : bool := N.leb 100 c.
+Definition ex_up0 (d : dev) : bool := negb (N.eqb d 1).
+
 Example C13_example :
-  let evs := [Recv 1 MReaderEventNotification (Some 10) true; Recv 2 MROAccessReport (Some 20) false;
-              Recv 1 MROAccessReport None false; KeepAliveAck 2; Recv 1 MROAccessReport (Some 11) false;
-              Command 2; PublisherRun 2; Recv 2 MReaderEventNotification (Some 21) false;
-              PublisherRun 0; PublisherRun 1; PublisherRun 0]%N in
-  published (run init evs) =
-    [(1, ResROAccessReport, 11); (1, ResReaderEventNotification, 10);
-     (2, ResReaderEventNotification, 21); (2, ResROAccessReport, 20)]%N
-  /\ pending (run init evs) = [].
-Proof. vm_compute. split; reflexivity. Qed.
+  let evs := [Recv 1 MReaderEventNotification [100] 5; OnConnectStart 0;
+              Recv 1 MROAccessReport [11; 7] 6; PublisherRun 0;
+              RecvCut 2 MROAccessReport [20] 1 7;
+              Recv 1 MROAccessReport [0; 1] 8; KeepAliveAck 2; Command 2;
+              MarkDown 2 true; Recv 2 MROAccessReport [21] 9;
+              Recv 2 MReaderEventNotification [22] 10; PublisherRun 1; PublisherRun 0;
+              SdkReturn 0 false; PublisherRun 0]%N in
+  let s := run ex_dec ex_conn (init_up ex_up0) evs in
+  published s =
+    [(1, ResROAccessReport, 11); (2, ResReaderEventNotification, 22);
+     (2, ResROAccessReport, 21); (1, ResReaderEventNotification, 100)]%N
+  /\ inflight s = [] /\ sdk_up_calls s = 1 /\ isup s 1%N = false /\ isup s 2%N = false
+  /\ ex_dec MROAccessReport [20%N] = Some 20%N.
+Proof. vm_compute. repeat split; reflexivity. Qed.
